@@ -24,7 +24,7 @@ package keeper
 //@         && (forall d: str :: {$supply[d]} $supply[d] == old($supply[d]) - truncInt(old(state.Remains[d])))
 //@         && (forall d: str :: {$bal[MAIN()][d]} $bal[MAIN()][d] == old($bal[MAIN()][d]) - truncInt(old(state.Remains[d])))
 //@         && (forall a: str :: {$bal[a]} a != MAIN() ==> $bal[a] == old($bal[a])))
-//@   prop C01 C14
+//@   prop C01 C14 C10
 //@ func (k Keeper) sendCoinsToModuleAccount(ctx, state)
 //@   requires state != nil && state.Account != nil && modaddr(state.Account.Id) != MAIN()
 //@   modifies $bal, *state, $accTag, $accSeq, $accPub
@@ -34,7 +34,7 @@ package keeper
 //@         && (forall d: str :: {$bal[MAIN()][d]} $bal[MAIN()][d] == old($bal[MAIN()][d]) - truncInt(old(state.Remains[d])))
 //@         && (forall d: str :: {$bal[modaddr(state.Account.Id)][d]} $bal[modaddr(state.Account.Id)][d] == old($bal[modaddr(state.Account.Id)][d]) + truncInt(old(state.Remains[d])))
 //@         && (forall a: str :: {$bal[a]} a != MAIN() && a != modaddr(state.Account.Id) ==> $bal[a] == old($bal[a])))
-//@   prop C14 C01
+//@   prop C14 C01 C10
 //@ func (k Keeper) sendCoinsToBaseAccount(ctx, state)
 //@   requires state != nil && state.Account != nil && fromBech32(state.Account.Id) != MAIN()
 //@   modifies $bal, *state, $accTag, $accSeq, $accPub
@@ -44,11 +44,16 @@ package keeper
 //@         && (forall d: str :: {$bal[MAIN()][d]} $bal[MAIN()][d] == old($bal[MAIN()][d]) - truncInt(old(state.Remains[d])))
 //@         && (forall d: str :: {$bal[fromBech32(state.Account.Id)][d]} $bal[fromBech32(state.Account.Id)][d] == old($bal[fromBech32(state.Account.Id)][d]) + truncInt(old(state.Remains[d])))
 //@         && (forall a: str :: {$bal[a]} a != MAIN() && a != fromBech32(state.Account.Id) ==> $bal[a] == old($bal[a])))
-//@   prop C14 C01
+//@   prop C14 C01 C10
 //@ func calculatePercentage(sharePercent, coinsToDistributeDec) (res)
 //@   requires !sharePercent.IsNil()
 //@   ensures (forall d: str :: {res[d]} res[d] == 0) || (forall d: str :: {res[d]} res[d] == truncInt(coinsToDistributeDec[d] * sharePercent))
-//@   prop C04
+//@   prop C04 C10
+
+//@ func (k Keeper) StartDistributionProcess(ctx, states, coinsToDistributeDec, subDistributor) (localRemains, distributions, burn)
+//@   requires states != nil
+//@   ensures true
+//@   prop C04 C10
 
 //@ // ---- C13: only governance changes the parameters; what is stored was validated; a rejected update changes nothing ----
 //@ spec func dpKey() str = global("types.ParamsKey")
@@ -58,7 +63,7 @@ package keeper
 //@   ensures err != nil ==> kvUnchanged()
 //@   ensures err == nil ==> distParamsValid(snap(p)) && $kvHas[storeOf(k.storeKey)][dpKey()] && $kvVal[storeOf(k.storeKey)][dpKey()] == enc(p)
 //@   ensures kvOnlyChanged(storeOf(k.storeKey), dpKey())
-//@   prop C13
+//@   prop C13 C20
 //@ func (k msgServer) UpdateParams(goCtx, msg) (resp, err)
 //@   requires msg != nil
 //@   modifies $kvHas, $kvVal
@@ -66,7 +71,7 @@ package keeper
 //@   ensures err != nil ==> kvUnchanged()
 //@   ensures err == nil ==> msg.Authority == k.authority && storedDistParamsOK(k.Keeper)
 //@   ensures kvOnlyChanged(storeOf(k.storeKey), dpKey())
-//@   prop C13
+//@   prop C13 C20
 //@ func (k msgServer) UpdateSubDistributorParam(goCtx, distributor) (resp, err)
 //@   requires distributor != nil && distributor.SubDistributor != nil
 //@   modifies $kvHas, $kvVal
@@ -74,7 +79,7 @@ package keeper
 //@   ensures err != nil ==> kvUnchanged()
 //@   ensures err == nil ==> distributor.Authority == k.authority && storedDistParamsOK(k.Keeper)
 //@   ensures kvOnlyChanged(storeOf(k.storeKey), dpKey())
-//@   prop C13
+//@   prop C13 C20
 //@ loop msgServer.UpdateSubDistributorParam#1
 //@   invariant kvUnchanged()
 //@ func (k msgServer) UpdateSubDistributorDestinationShareParam(goCtx, msg) (resp, err)
@@ -84,7 +89,7 @@ package keeper
 //@   ensures err != nil ==> kvUnchanged()
 //@   ensures err == nil ==> msg.Authority == k.authority && storedDistParamsOK(k.Keeper)
 //@   ensures kvOnlyChanged(storeOf(k.storeKey), dpKey())
-//@   prop C13
+//@   prop C13 C20
 //@ loop msgServer.UpdateSubDistributorDestinationShareParam#1
 //@   invariant kvUnchanged()
 //@ loop msgServer.UpdateSubDistributorDestinationShareParam#2
@@ -96,9 +101,15 @@ package keeper
 //@   ensures err != nil ==> kvUnchanged()
 //@   ensures err == nil ==> msg.Authority == k.authority && storedDistParamsOK(k.Keeper)
 //@   ensures kvOnlyChanged(storeOf(k.storeKey), dpKey())
-//@   prop C13
+//@   prop C13 C20
 //@ loop msgServer.UpdateSubDistributorBurnShareParam#1
 //@   invariant kvUnchanged()
+
+//@ // ---- C20: entry points under the no-panic sweep (no functional claim here: they must not panic for any field values) ----
+//@ func (k Keeper) Params(c, req) (r0, r1)
+//@   prop C20
+//@ func (k Keeper) States(goCtx, req) (r0, r1)
+//@   prop C20
 
 //@ // ---- declared effects (checked per call instruction by the effect checker; anything not listed is effect-free) ----
 //@ effects Keeper.BurnCoinsForSpecifiedModuleAccount bank.burn
